@@ -325,7 +325,7 @@ impl Plan {
         for (i, d) in docs.iter().enumerate() {
             // raw streams and most padded layouts are C12 documents; here one padded BAM / BCF (with a block boundary
             // inside the padding) is enough: the record layers are those of the base documents
-            if d.big || d.raw || (d.equiv_of.is_some() && !d.name.ends_with("padded64-split")) {
+            if d.big || d.raw || d.name.starts_with("eng-") || (d.equiv_of.is_some() && !d.name.ends_with("padded64-split")) {
                 continue;
             }
             let mut modes: Vec<Mode> = Api::all_for(d.format).iter().map(|a| Mode::Read(*a)).collect();
